@@ -146,11 +146,13 @@ def check_hist2d(run, tree, aspects=("limits", "layers")):
         except ERR as e:
             run.unresolved(construct, fi.where(), "cannot fold: %s" % e)
     # ------------------------------------------------------------------ axis separation + layers
-    for label, spec, logx, logy in ((("two layers (mean, sum)", [("RHO", "mean"), ("TEMP", None)], False, True), ("no layer: counts", [], True, False)) if "layers" in aspects else ()):
+    for label, spec, logx, logy, call_op in ((("two layers (mean, sum)", [("RHO", "mean"), ("TEMP", None)], False, True, "sum"), ("no layer: counts", [], True, False, "sum"),
+                                             ("layer-level sum against call-level mean", [("RHO", None), ("TEMP", "sum")], False, False, "mean"),
+                                             ("three layers (sum, mean, sum)", [("RHO", "sum"), ("TEMP", "mean"), ("PRES", None)], False, False, "sum")) if "layers" in aspects else ()):
         construct = "%s::layers[%s]" % (H2D, label)
         try:
             try:
-                rec, out = build(tree, spec, logx=logx, logy=logy)
+                rec, out = build(tree, spec, logx=logx, logy=logy, operation=call_op)
             except (Raised, ProgramRaised) as e:
                 run.violated(construct, fi.where(), "raises %s" % e, "histogram2d(%s)" % label)
                 continue
@@ -173,13 +175,13 @@ def check_hist2d(run, tree, aspects=("limits", "layers")):
             vals = kw.get("values")
             elems = [origin_of(e) for e in vals.elems] if isinstance(vals, Stack) else []
             if spec:
-                if [sorted(leaves(e) & {"RHO", "TEMP"}) for e in elems] != [["RHO"], ["TEMP"]]:
+                if [sorted(leaves(e) & {"RHO", "TEMP", "PRES"}) for e in elems] != [[s_[0]] for s_ in spec]:
                     problems.append("kernel slots are made of %s (required one slot per layer, in order)" % [sorted(leaves(e)) for e in elems])
             else:
                 if len(elems) != 1 or not any(isinstance(t, tuple) and t and t[0] == "ones_like" for t in walk(elems[0])):
                     problems.append("without layers the binned quantity is %r (required ones: the number of points per bin)" % (elems,))
             rl = out._attrs.get("layers") if isinstance(out, PyObj) else None
-            ops = [s[1] or "sum" for s in spec] or ["sum"]
+            ops = [s[1] or call_op for s in spec] or ["sum"]
             if not isinstance(rl, list) or len(rl) != len(ops):
                 problems.append("%r layers returned" % (rl if not isinstance(rl, list) else len(rl),))
             else:
